@@ -136,6 +136,9 @@ def guards(rep, prog, rule):
                 return None
 
             def extent(e, ax=axis):
+                # self.height() or, for the views that store it, the field self.height
+                if e[0] == "field" and e[2] == ax and e[1][0] == "param" and e[1][1] == 1:
+                    return True
                 return e[0] == "call" and e[1] == ax and e[2] and e[2][0][0] == "param" \
                     and e[2][0][1] == 1
 
